@@ -33,6 +33,9 @@ pub struct ScriptProc {
     pub rectime: bool,
     pub ndraws: usize,
     pub stateless: bool,
+    /// issue each row grouped by kind (sends, local sends, timer operations): the order in which the Python
+    /// bridge relays the actions of a handler (C18)
+    pub grouped: bool,
     pub st: ScriptState,
 }
 
@@ -60,7 +63,15 @@ const KEY_SEP: u64 = 256;
 impl ScriptProc {
     pub fn new(cap: u64, rows: Vec<Vec<Act>>, flags: u64, ndraws: usize) -> Self {
         let rows = if rows.is_empty() { vec![vec![]] } else { rows };
-        ScriptProc { cap, rows, rectime: flags & 1 != 0, ndraws, stateless: flags & 2 != 0, st: ScriptState::default() }
+        ScriptProc {
+            cap,
+            rows,
+            rectime: flags & 1 != 0,
+            ndraws,
+            stateless: flags & 2 != 0,
+            grouped: flags & 4 != 0,
+            st: ScriptState::default(),
+        }
     }
 
     fn handle(&mut self, key: Vec<u64>, ctx: &mut Context) {
@@ -77,7 +88,15 @@ impl ScriptProc {
             for c in &key {
                 h = (h * 131 + c) % (1u64 << 32);
             }
-            let row = self.rows[(h % self.rows.len() as u64) as usize].clone();
+            let mut row = self.rows[(h % self.rows.len() as u64) as usize].clone();
+            if self.grouped {
+                let rank = |a: &Act| match a {
+                    Act::Send { .. } => 0,
+                    Act::Local { .. } => 1,
+                    _ => 2,
+                };
+                row.sort_by_key(rank);     // stable: issue order within each kind
+            }
             if !self.stateless {
                 self.st.idx += 1;
             }
@@ -133,6 +152,26 @@ impl Process for ScriptProc {
         self.st = state.downcast_ref::<ScriptState>().expect("not a ScriptState").clone();
         Ok(())
     }
+}
+
+/// JSON description of a program for the Python twin (harness/py/script_proc.py)
+pub fn spec_json(cap: u64, rows: &[Vec<Act>], flags: u64, raise_at: i64) -> String {
+    let rows_j: Vec<serde_json::Value> = rows
+        .iter()
+        .map(|r| {
+            serde_json::Value::Array(
+                r.iter()
+                    .map(|a| match a {
+                        Act::Send { dst, msg } => serde_json::json!(["S", dst, msg.tip, msg.data]),
+                        Act::Local { msg } => serde_json::json!(["L", msg.tip, msg.data]),
+                        Act::Timer { name, delay, once } => serde_json::json!(["T", name, delay, once]),
+                        Act::Cancel { name } => serde_json::json!(["C", name]),
+                    })
+                    .collect(),
+            )
+        })
+        .collect();
+    serde_json::json!({"cap": cap, "rows": rows_j, "flags": flags, "raise_at": raise_at}).to_string()
 }
 
 pub fn script_state(ps: &Rc<dyn ProcessState>) -> ScriptState {
